@@ -1139,3 +1139,141 @@ func errDeadOnSomePath(ci ssa.CallInstruction) ssa.Instruction {
 		return false
 	})
 }
+
+// ---- C03-C1: a VNG column becomes a Const only on evidence that all its values have the same bytes.
+//
+// A Const vector stores one value for the whole column.  The evidence must be identity of the
+// encoded bytes (a dictionary of distinct byte strings with exactly one entry, or a byte
+// comparison): equality under the value order is weaker (0. and -0. compare equal, as do values
+// the order does not separate), and a column mixing them would read back with every value
+// replaced by the first.
+func runConstColumnByteIdentity(c *Ctx, rule string) {
+	p := c.P
+	c.Rule(rule, "a vng.Const is built by PrimitiveEncoder only under a test of the byte-keyed dictionary's size (or a byte comparison), never merely under a comparison in the value order: const encoding needs identical bytes, which equality of min and max does not give (0. and -0.)")
+	n := 0
+	for _, fn := range p.FuncsIn("vng") {
+		if fn.Signature.Recv() == nil || namedOf(fn.Signature.Recv().Type()) != "vng.PrimitiveEncoder" {
+			continue
+		}
+		for _, b := range fn.Blocks {
+			for _, in := range b.Instrs {
+				al, ok := in.(*ssa.Alloc)
+				if !ok || namedOf(al.Type()) != "vng.Const" {
+					continue
+				}
+				n++
+				construct := fnName(fn) + " builds a vng.Const"
+				byBytes := false
+				for d := b; d != nil; d = d.Idom() {
+					id := d.Idom()
+					if id == nil || len(id.Instrs) == 0 {
+						continue
+					}
+					iff, ok := id.Instrs[len(id.Instrs)-1].(*ssa.If)
+					if !ok {
+						continue
+					}
+					if dependsOn(iff.Cond, func(v ssa.Value) bool {
+						call, ok := v.(*ssa.Call)
+						if !ok {
+							return false
+						}
+						if bi, ok := call.Common().Value.(*ssa.Builtin); ok && bi.Name() == "len" {
+							return dependsOn(call.Common().Args[0], func(x ssa.Value) bool {
+								l, ok := x.(*ssa.UnOp)
+								if !ok || l.Op != token.MUL {
+									return false
+								}
+								fa, ok := l.X.(*ssa.FieldAddr)
+								if !ok || fieldVarOf(fa) == nil {
+									return false
+								}
+								mt, ok := fieldVarOf(fa).Type().Underlying().(*types.Map)
+								if !ok {
+									return false
+								}
+								kb, ok := mt.Key().Underlying().(*types.Basic)
+								return ok && kb.Kind() == types.String
+							})
+						}
+						switch calleeName(call.Common()) {
+						case "bytes.Equal", "bytes.Compare":
+							return true
+						}
+						return false
+					}) {
+						byBytes = true
+					}
+				}
+				if byBytes {
+					c.OK(rule, construct, al.Pos(), "under a test of the byte-keyed dictionary's size / a byte comparison")
+				} else {
+					c.Fail(rule, construct, al.Pos(), "the Const is built without a dominating test of the byte-keyed dictionary (len(p.dict)) or a byte comparison: values that are equal in the value order but differ in their bytes (0. and -0.) are collapsed into the first one, and the column does not read back as written")
+				}
+			}
+		}
+	}
+	if n == 0 {
+		c.Undecided(rule, "vng.PrimitiveEncoder", "no construction of vng.Const found in the encoder")
+	}
+}
+
+// ---- C15-C1 (= C13-C1): the commit path cache holds only complete paths.
+//
+// commits.Store.Path hands out what it finds in s.paths as the whole leaf-to-root path of a
+// commit, and PathRange splices a cached entry in as the rest of the path down to the root.
+// An entry that stops at some ancestor (a PathRange result for `to` != Nil) silently truncates
+// every later answer: revert replays a commit on an empty base, merge cannot find the common
+// ancestor.  So every value stored into the cache must come from PathRange(.., ksuid.Nil).
+func runPathCacheHoldsFullPaths(c *Ctx, rule string) {
+	p := c.P
+	c.Rule(rule, "every value added to commits.Store.paths is the result of PathRange called with to = ksuid.Nil (a complete leaf-to-root path): a path cut at an ancestor is never cached, because cached entries are handed out and spliced in as complete paths")
+	n := 0
+	for _, fn := range p.FuncsIn("lake/commits") {
+		for _, ci := range allCalls(fn) {
+			cc := ci.Common()
+			if !strings.HasSuffix(calleeName(cc), ").Add") || len(cc.Args) < 3 {
+				continue
+			}
+			// receiver is the load of field `paths`
+			recvIsPaths := dependsOn(cc.Args[0], func(v ssa.Value) bool {
+				l, ok := v.(*ssa.UnOp)
+				if !ok || l.Op != token.MUL {
+					return false
+				}
+				fa, ok := l.X.(*ssa.FieldAddr)
+				return ok && fieldVarOf(fa) != nil && fieldVarOf(fa).Name() == "paths"
+			})
+			if !recvIsPaths {
+				continue
+			}
+			n++
+			construct := constructName(fn) + " adds to the path cache"
+			full := false
+			val := cc.Args[2]
+			if dependsOn(val, func(v ssa.Value) bool {
+				call, ok := v.(*ssa.Call)
+				if !ok || calleeName(call.Common()) != "(*lake/commits.Store).PathRange" {
+					return false
+				}
+				args := call.Common().Args
+				l, ok := stripConv(args[len(args)-1]).(*ssa.UnOp)
+				if !ok || l.Op != token.MUL {
+					return false
+				}
+				g, ok := l.X.(*ssa.Global)
+				return ok && g.Name() == "Nil"
+			}) {
+				full = true
+			}
+			if full {
+				c.OK(rule, construct, ci.Pos(), "the cached value is PathRange(.., ksuid.Nil)")
+			} else {
+				c.Fail(rule, construct, ci.Pos(), "the value cached as the path of a commit is not the result of PathRange(.., ksuid.Nil): a path that stops at an ancestor is later returned by Path and spliced in by PathRange as if it reached the root, so a revert of that ancestor replays it on an empty base and a merge cannot locate the common ancestor")
+			}
+		}
+	}
+	if n == 0 {
+		c.Undecided(rule, "commits.Store.paths", "no insertion into the path cache found")
+	}
+}
